@@ -58,6 +58,10 @@ func isIf(s ast.Stmt) bool { _, ok := s.(*ast.IfStmt); return ok }
 func main() {
 	root := os.Args[1]
 	gen2 := len(os.Args) > 2 && os.Args[2] == "gen2"
+	// gen3: "wrong variable" / "wrong field" slips: an identifier use replaced by another variable
+	// declared in the same function, a selected field by another field selected in the same function
+	// (the compiler filters the ill-typed ones), ids W....; every 7th by position hash is emitted.
+	gen3 := len(os.Args) > 2 && os.Args[2] == "gen3"
 	var files []string
 	filepath.Walk(root, func(p string, info os.FileInfo, err error) error {
 		if err != nil {
@@ -87,7 +91,11 @@ func main() {
 		}
 		off := func(p token.Pos) int { return fset.Position(p).Offset }
 		emit := func(start, end int, repl, op string) {
-			if gen2 != (strings.HasPrefix(op, "swap-stmts") || op == "del-lockpair") {
+			isG3 := strings.HasPrefix(op, "wrong-")
+			if gen3 != isG3 {
+				return
+			}
+			if !gen3 && gen2 != (strings.HasPrefix(op, "swap-stmts") || op == "del-lockpair") {
 				return
 			}
 			n++
@@ -98,6 +106,9 @@ func main() {
 			pfx := "M"
 			if gen2 {
 				pfx = "N"
+			}
+			if gen3 {
+				pfx = "W"
 			}
 			enc.Encode(mutant{ID: fmt.Sprintf("%s%04d", pfx, n), File: rel, Start: start, End: end, Repl: repl, Op: op,
 				Line: fset.Position(token.Pos(fset.File(af.Pos()).Base() + start)).Line, Orig: orig})
@@ -190,6 +201,75 @@ func main() {
 					}
 				}
 			}
+		}
+		for _, d := range af.Decls {
+			fd, ok := d.(*ast.FuncDecl)
+			if !ok || fd.Body == nil || !gen3 {
+				continue
+			}
+			vars := map[string]bool{}
+			fields := map[string]bool{}
+			ast.Inspect(fd, func(nd ast.Node) bool {
+				switch x := nd.(type) {
+				case *ast.Ident:
+					if x.Obj != nil && x.Obj.Kind == ast.Var && x.Name != "_" {
+						vars[x.Name] = true
+					}
+				case *ast.SelectorExpr:
+					if _, isCall := x.X.(*ast.CallExpr); !isCall {
+						fields[x.Sel.Name] = true
+					}
+				}
+				return true
+			})
+			names := func(m map[string]bool) []string {
+				var o []string
+				for k := range m {
+					o = append(o, k)
+				}
+				sort.Strings(o)
+				return o
+			}
+			vs, fs := names(vars), names(fields)
+			called := map[*ast.Ident]bool{}
+			ast.Inspect(fd.Body, func(nd ast.Node) bool {
+				if c, ok := nd.(*ast.CallExpr); ok {
+					if sel, ok := c.Fun.(*ast.SelectorExpr); ok {
+						called[sel.Sel] = true
+					}
+				}
+				return true
+			})
+			k := 0
+			ast.Inspect(fd.Body, func(nd ast.Node) bool {
+				switch x := nd.(type) {
+				case *ast.Ident:
+					if x.Obj == nil || x.Obj.Kind != ast.Var || x.Name == "_" || x.Obj.Pos() == x.Pos() {
+						return true
+					}
+					for _, o := range vs {
+						if o != x.Name {
+							k++
+							if (off(x.Pos())+k)%7 == 0 {
+								emit(off(x.Pos()), off(x.End()), o, "wrong-var "+x.Name+"->"+o)
+							}
+						}
+					}
+				case *ast.SelectorExpr:
+					if called[x.Sel] {
+						return true
+					}
+					for _, o := range fs {
+						if o != x.Sel.Name {
+							k++
+							if (off(x.Sel.Pos())+k)%3 == 0 {
+								emit(off(x.Sel.Pos()), off(x.Sel.End()), o, "wrong-field "+x.Sel.Name+"->"+o)
+							}
+						}
+					}
+				}
+				return true
+			})
 		}
 		ast.Inspect(af, func(nd ast.Node) bool {
 			switch x := nd.(type) {
